@@ -1164,15 +1164,16 @@ func (g *vg) genRDNSS(i int) dRDNSS {
 		}
 		if g.chance(l+":wild", 1, 3) {
 			pos := rapid.IntRange(0, len(r.Servers)).Draw(g.t, l+":wildpos")
-			r.Servers = append(r.Servers[:pos], append([]dAddr{{Text: "::", Kind: "wildcard"}}, r.Servers[pos:]...)...)
+			r.Servers = append(r.Servers[:pos], append([]dAddr{{Text: rapid.SampledFrom([]string{"::", "::", "::0", "0::", "0:0:0:0:0:0:0:0"}).Draw(g.t, l+":wildtext"), Kind: "wildcard"}}, r.Servers[pos:]...)...)
 		}
 		if g.bad(l + ":servers") {
 			var b dAddr
 			switch rapid.IntRange(0, 4).Draw(g.t, l+":badserver") {
 			case 0:
-				b = dAddr{Text: "192.0.2.53", Kind: "v4"}
+				// (the IPv4 unspecified address is "unspecified" for netip just as :: is - it is still not IPv6)
+				b = dAddr{Text: rapid.SampledFrom([]string{"192.0.2.53", "0.0.0.0", "255.255.255.255", "127.0.0.1", "0.0.0.0"}).Draw(g.t, l+":v4"), Kind: "v4"}
 			case 1:
-				b = dAddr{Text: "::ffff:192.0.2.53", Kind: "mapped"}
+				b = dAddr{Text: rapid.SampledFrom([]string{"::ffff:192.0.2.53", "::ffff:0.0.0.0", "::ffff:0:0"}).Draw(g.t, l+":mapped"), Kind: "mapped"}
 			case 2:
 				b = dAddr{Text: rapid.SampledFrom([]string{"dns.example.com", "2001:db8::/64", "", "2001:db8:::1"}).Draw(g.t, l+":mal"), Kind: "malformed"}
 			case 3:
